@@ -1088,4 +1088,57 @@ theorem mm_run (gt : Bool) (nm : String) (ifs : Nat) (hi : ifs ≠ accSlot) (k :
 theorem truthy_convert_bool (c : CV N) : (convert .bool c).truthy = c.truthy := by
   cases c <;> rfl
 
+/-! ### a conditional inside the lambda of an aggregate -/
+
+/-- `lambda acc, j: (acc if acc > 0 else 0) + j.k()`: a conditional over the accumulator inside the lambda, next to a
+real term — the accumulator is widened after the conditional has been translated -/
+def clampUpd (nm : String) (ifs : Nat) (k : CT) (s : String) (slot : Nat) : Upd :=
+  .condIn ifs (.cmp .gt (accLeaf .int) (.int 0)) (accLeaf .int) (.int 0) (.bin .add (.leaf .double nm ifs) (.leaf k s slot))
+
+def clampOut (nm : String) (ifs : Nat) (k : CT) (s : String) (slot : Nat) : AggOut :=
+  { accTy := .double, seed := .ilit 0,
+    cond := some { test := ⟨.bool, .bin ">" (.leaf .double "acc" 0) (.ilit 0)⟩,
+                   thenRhs := .leaf .double "acc" 0,
+                   elseRhs := .cast .double (.ilit 0),
+                   result := ⟨.double, .leaf .double nm ifs⟩ },
+    updRhs := .bin "+" (.leaf .double nm ifs) (.leaf k s slot) }
+
+theorem emitAgg_clamp (nm : String) (ifs : Nat) (hi : ifs ≠ accSlot) (k : CT) (hk : k = .float ∨ k = .double) (s : String)
+    (slot : Nat) (hs : slot ≠ accSlot) (hsi : slot ≠ ifs) : emitAgg nm ifs seed0 (clampUpd nm ifs k s slot) = .ok (clampOut nm ifs k s slot) := by
+  have hs' : slot ≠ 0 := hs
+  have hi' : ifs ≠ 0 := hi
+  rcases hk with rfl | rfl <;>
+  simp [emitAgg, accTypeOk, seed0, clampUpd, translateUpd, translate, lookup_gt, lookup_add, binHandled, accLeaf, emitCmp, emitCond,
+    emitBin, emitKnownBin, Expr.retypeAt, mostAccurate_pair, CT.rank, accType, setVarRhs, finalRep, CE.retype, accSlot, clampOut,
+    hs', hi', hsi, condResultType]
+
+theorem clamp_stepC (nm : String) (ifs : Nat) (hi : ifs ≠ accSlot) (k : CT) (hk : k = .float ∨ k = .double)
+    (s : String) (slot : Nat) (hs : slot ≠ accSlot) (hsi : slot ≠ ifs) (env : Env N) (x : N.D) :
+    stepAggC ifs (clampOut nm ifs k s slot) env (.dbl x) =
+      some (.dbl (N.add (if N.lt (N.ofInt 0) x then x else N.ofInt 0) (env slot).d)) := by
+  have hs' : slot ≠ 0 := hs
+  have hi' : ifs ≠ 0 := hi
+  rcases hk with rfl | rfl <;> by_cases h : N.lt (N.ofInt 0) x = true <;>
+    simp [stepAggC, clampOut, evalC, evalCondC, setAcc, accSlot, hs', hi', hsi, leafVal, cBin, convert, CV.isFloating,
+      CV.ctype, CT.isFloating, CV.toI, CV.toD, CV.truthy, mkF, wider, h]
+
+/-- Python's accumulator: the int seed 0 before the first element, a float afterwards -/
+def clampInv (x : N.D) (ap : PV N) : Prop := ap = .float x ∨ (ap = .int 0 ∧ x = N.ofInt 0)
+
+theorem clamp_stepPy (nm : String) (ifs : Nat) (hi : ifs ≠ accSlot) (k : CT) (hk : k = .float ∨ k = .double)
+    (s : String) (slot : Nat) (hs : slot ≠ accSlot) (hsi : slot ≠ ifs) (env : Env N) (x : N.D) (ap : PV N)
+    (h0 : N.lt (N.ofInt 0) (N.ofInt 0) = false) (hinv : clampInv x ap) :
+    stepAggPy true (clampUpd nm ifs k s slot) env ap =
+      some (.float (N.add (if N.lt (N.ofInt 0) x then x else N.ofInt 0) (env slot).d)) := by
+  have hs' : slot ≠ 0 := hs
+  have hi' : ifs ≠ 0 := hi
+  have hi'' : ¬ (0 = ifs) := fun h => hi' h.symm
+  rcases hinv with rfl | ⟨rfl, rfl⟩
+  · rcases hk with rfl | rfl <;> by_cases h : N.lt (N.ofInt 0) x = true <;>
+      simp [stepAggPy, clampUpd, evalPy, evalCondPy, setAccPy, accSlot, hs', hi', hi'', hsi, leafVal, pyCmp, pyBin, CV.toPy,
+        PV.isFloat, PV.toI, PV.toF, PV.truthy, accLeaf, Expr.retype, Expr.retypeAt, PV.ct, h]
+  · rcases hk with rfl | rfl <;>
+      simp [stepAggPy, clampUpd, evalPy, evalCondPy, setAccPy, accSlot, hs', hi', hi'', hsi, leafVal, pyCmp, pyBin, CV.toPy,
+        PV.isFloat, PV.toI, PV.toF, PV.truthy, accLeaf, Expr.retype, Expr.retypeAt, PV.ct, h0]
+
 end FaxVerif.C13
